@@ -12,7 +12,7 @@ from univers import version_range as VR
 from univers.conan.errors import ConanException
 from univers.version_range import VersionRange
 
-MODULES = ["Univers.Props.C16", "Univers.Scheme.TablesThm"]
+MODULES = ["Univers.Props.C16", "Univers.Scheme.TablesThm", "Univers.Text.AdvisoryTables"]
 _T = "Univers.Text."
 THEOREMS = {
     "Univers.Props.C11": ["Univers.C11." + n for n in (
